@@ -13,7 +13,8 @@ package main
 //	joiner     joinNetwork: storeDKGOutput, StartBeacon(catchup = true): NewHandler(new group, new share) + Catchup
 //	           (`announce <i> transition`: Handler.Transition(prevGroup) instead, the documented joiner entry point
 //	           that core does not use)
-//	leaver     leaveNetwork: Handler.StopAt(transition time - 1) (the handler stops itself on its own fake clock)
+//	leaver     leaveNetwork: Handler.StopAt(transition time - 1) (the handler stops itself on its own fake clock);
+//	           `announce <i> core` calls the REAL core.onDKGCompleted (export shim), which takes the leaveNetwork path, with bp.group = the group the node runs
 //
 //	ops:  reshare <newThr> <i:idx,i:idx,…> <k>   new epoch: the listed sim nodes with their NEW share indices (gaps
 //	                                allowed), transition at the start of round current+k. Nothing is called on any
@@ -45,6 +46,7 @@ import (
 	"github.com/drand/drand/v2/common/key"
 	"github.com/drand/drand/v2/internal/chain"
 	"github.com/drand/drand/v2/internal/chain/beacon"
+	"github.com/drand/drand/v2/internal/core"
 	pb "github.com/drand/drand/v2/protobuf/drand"
 	"github.com/drand/kyber"
 	"github.com/drand/kyber/share"
@@ -83,6 +85,8 @@ func (s *netSim) newEpoch(secret kyber.Scalar, thr int, members map[int]int, tRo
 	}
 	if tRound > 0 {
 		ep.tTime = common.TimeOfRound(s.period, s.genesis, tRound)
+	} else {
+		ep.tTime = s.genesis // as the first DKG sets it (startDKGExecution: epoch 1 -> genesis time)
 	}
 	g := key.LoadGroup(knodes, s.genesis, &key.DistPublic{Coefficients: commits}, s.period, ep.tTime, s.sch, "default")
 	g.Threshold = thr
@@ -283,6 +287,29 @@ func (s *netSim) reshareOp(f []string, t0 time.Time) string {
 			nd.cfg = ep.id // storeDKGOutput: the group and share files are the new ones from now on
 			if h := s.handlerOf(i); h != nil {
 				h.TransitionNewGroup(context.Background(), ep.shares[i], ep.group)
+			}
+		case isOld && len(f) > 2 && f[2] == "core":
+			// the REAL core.onDKGCompleted -> leaveNetwork: bp.group is the group the node is running (the previous epoch's)
+			role = "leave:core"
+			if h := s.handlerOf(i); h != nil {
+				done := make(chan struct{})
+				go func() {
+					defer close(done)
+					_, _ = core.VerifOnDKGCompleted(s.logger, nd.clk, nd.pair, old.group, ep.group, h)
+					if h.IsStopped() {
+						s.mu.Lock()
+						if nd.h == h {
+							nd.up = false
+						}
+						s.mu.Unlock()
+						s.cancelStreams(func(st *simStream) bool { return st.from == i || st.to == i })
+					}
+				}()
+				select {
+				case <-done: // returned at once: nothing sleeps on the node's clock
+					role = "leave:core:returned"
+				case <-time.After(10 * s.quiet):
+				}
 			}
 		case isOld:
 			role = "leave"
